@@ -16,8 +16,8 @@ CRATES = ['identity_core']
 REPLAY = {'scenario': 'collections'}
 
 
-def run(ctx, prog):
-    A = Auditor(ctx, prog)
+def run(ctx, prog, only=None):
+    A = Auditor(ctx, prog, only=only)
     OS = r'one_or_set::<impl at [^>]*>::'
     f = prog.one(OS + r'new_set$')
     paths, ex = A.paths(f)
@@ -384,6 +384,35 @@ def kani_part(ctx):
     kanirun.judge(ctx, specs, res, 'c19')
 
 
+def one_or_set_serialize_derived(ctx, prog):
+    """OneOrSet (and its inner enum) are written by the derived untagged Serialize: the variant read is the variant written, so a value
+    read from a one-element array reads back equal (documents hold controllers / service types in this type: the JSON round trip of C04)."""
+    import derives
+    derives.derived_impls(ctx, prog, 'OneOrSet/serialize-is-the-derived-one', r'identity_core/src/common/one_or_set\.rs', ['one_or_set.rs'],
+                          {'scenario': 'collections', 'cex': {'only': '[serde]'}}, methods=('serialize',))
+
+
+def one_or_many_serde_shape(ctx, prog):
+    """OneOrMany is read by serde's derived untagged routine with no per-field deserialiser: every value it writes (the empty list
+    included) reads back; a `deserialize_with` helper shows up in the MIR as `...::deserialize::...::<impl>::deserialize` nested in the
+    derive of one_or_many.rs."""
+    from replay import run_replay
+    name = 'OneOrMany/read-by-the-derived-deserialiser-without-per-variant-helper'
+    helpers = [g.name for g in prog.funcs if re.search(r'one_or_many\.rs[^>]*>::deserialize::.*<impl at [^>]*>::deserialize$', g.name)]
+    derives = [g.name for g in prog.funcs if re.search(r'<impl at [^>]*one_or_many\.rs[^>]*>::deserialize$', g.name)]
+    if not derives:
+        ctx.add(Ob(name, 'M', INCONCLUSIVE, detail='no derived Deserialize found in one_or_many.rs'))
+        return
+    if not helpers:
+        ctx.add(Ob(name, 'M', HELD, queries=len(derives), sample='derived Deserialize of OneOrMany, no helper'))
+        return
+    rep = {'scenario': 'collections', 'cex': {'only': '[serde]'}}
+    res = run_replay(rep)
+    ctx.add(Ob(name, 'M', VIOLATED if res.get('reproduced') else INCONCLUSIVE,
+               detail='custom deserialiser inside OneOrMany (%s); native: %s' % (helpers[0][-120:], res.get('detail', '')[:300]), replay=rep,
+               cex={'path': helpers[0][-160:]}))
+
+
 def main(ctx):
     prog, info = load(CRATES)
     ctx.extra['mir'] = info
@@ -391,5 +420,7 @@ def main(ctx):
                     'OneOrSet::append and OneOrMany::push (mem::replace choreography; not encoded)']
     guarded(ctx, 'one-or-set normalisation', 'M', lambda: run(ctx, prog))
     guarded(ctx, 'serde constructors and change', 'M', lambda: serde_and_change(ctx, prog))
+    guarded(ctx, 'OneOrMany serde shape', 'M', lambda: one_or_many_serde_shape(ctx, prog))
+    guarded(ctx, 'OneOrSet serialize derived', 'M', lambda: one_or_set_serialize_derived(ctx, prog))
     if os.environ.get('VERIF_SKIP_K') != '1':
         guarded(ctx, 'ordered set inductive steps', 'K', lambda: kani_part(ctx))
